@@ -28,7 +28,7 @@ import vx  # noqa: E402
 TAG_RE = re.compile(r'//@ ((?:C\d+)(?:\+C\d+)*):([A-Za-z0-9_]+)')
 WORK = os.environ.get('VERIF_WORK', '/var/tmp/poster-verif')
 try:
-    VERUS_ID = subprocess.run(['verus', '--version'], capture_output=True, text=True).stdout.strip() + ' threads=12 multiple-errors=20'
+    VERUS_ID = subprocess.run(['verus', '--version'], capture_output=True, text=True).stdout.strip() + ' threads=12 multiple-errors=20 time'
 except OSError:
     VERUS_ID = 'verus?'
 
@@ -245,6 +245,35 @@ def trusted_scan(text):
     return items
 
 
+def trusted_names(text):
+    """every assumed item of an assembled unit, by name: external_body functions/types, assume_specification targets,
+    uninterpreted spec functions, assume()/admit() statements"""
+    out = []
+    lines = text.split('\n')
+    ctx = ''
+    for k, l in enumerate(lines):
+        m = re.match(r'\s*(?:pub )?(?:unsafe )?impl(?:<[^>]*>)?\s+(.*?)\s*(?:where.*)?\{?\s*$', l)
+        if m and not l.startswith('        '):
+            ctx = re.sub(r'\s+', ' ', m.group(1))[:60]
+        if 'external_body' in l and l.strip().startswith('#['):
+            for j in range(k, min(k + 6, len(lines))):
+                mm = re.search(r'\b(fn|struct|enum)\s+(\w+)', lines[j])
+                if mm:
+                    out.append('external_body %s %s%s' % (mm.group(1), (ctx + '::') if (mm.group(1) == 'fn' and lines[j].startswith('    ')) else '', mm.group(2)))
+                    break
+        mm = re.search(r'assume_specification(?:<[^\[]*>)?\s*\[\s*([^\]]+)\]', l)
+        if mm:
+            out.append('assume_specification ' + re.sub(r'\s+', '', mm.group(1)))
+        mm = re.search(r'uninterp spec fn\s+(\w+)', l)
+        if mm:
+            out.append('uninterp spec fn %s%s' % ((ctx + '::') if l.startswith('    ') else '', mm.group(1)))
+        if re.search(r'\bassume\(', l) and 'assume_specification' not in l:
+            out.append('assume(..) at ' + l.strip()[:80])
+        if re.search(r'\badmit\(', l):
+            out.append('admit() at ' + l.strip()[:80])
+    return out
+
+
 # a one-line proof hint in a template: `assert(..);` or a lemma call `lemma_x(..);` (only adds facts for the solver)
 HINT_STMT = re.compile(r'^(\s*)(?:assert\(.*\)|(?:\w+::)*lemma_\w+(?:::<[^;]*>)?\(.*\));\s*(?://.*)?$')
 CANARY_RX = re.compile(r'CANARY:(\S+)')
@@ -359,6 +388,7 @@ def main():
     fns_under_contract = []
     rewrites = {}
     verified_fns = 0
+    trusted_items = set()
     canary_total = canary_failed = 0
     assumed_here = []
 
@@ -405,6 +435,8 @@ def main():
             rewrites[k] = rewrites.get(k, 0) + v
         for t in trusted_scan(u.text()):
             trusted.add('%s: %s' % (un, t))
+        for t in trusted_names(u.text()):
+            trusted_items.add(t)
         for (fa, fb, nm, qn, rel, sl) in u.fns:
             fns_under_contract.append('%s::%s' % (rel, qn))
         for (ln, props, name, st) in owned_tags(un, u):
@@ -522,7 +554,11 @@ def main():
             'bounded_native_replays': [{'test': r['test'], 'cases_passed': r['passed'], 'cases_failed': r['failed']} for r in replays],
             'known_findings': [f[1] for f in knowns],
             'undecided': undecided,
-            'evaluations': max(n_obl, 1), 'distinct_nontrivial': max(n_obl, 2),
+            'evaluations': verified_fns, 'distinct_nontrivial': n_obl,
+            'rule': 'evaluations = functions (exec, proof, lemmas) whose verification conditions Verus discharged in the units of this run; '
+                    'distinct_nontrivial = distinct tagged obligations (by name) of this property that this run CHECKED (assumed copies are not counted); '
+                    'non-trivial: the vacuity canary of every contracted function failed as required in the same run',
+            'assumed_items_by_name': sorted(trusted_items),
         },
         'assumptions': sorted(trusted),
         'wall_s': round(wall, 2),
